@@ -54,6 +54,7 @@ type Contract struct {
 	Modifies []string
 	HasMod   bool
 	Track    []string // callee patterns whose call state is tracked as ghost (called/ret/argof)
+	Opaque   []string
 	NoInline []string // callee patterns never inlined (treated as unknown calls)
 	Opts     map[string]string
 	curProps []string
@@ -572,6 +573,11 @@ func (cs *ContractSet) parseContractText(file, pkgPath, text string) {
 		case "track":
 			cur.Track = append(cur.Track, strings.Fields(rest)...)
 		case "noinline":
+			cur.NoInline = append(cur.NoInline, strings.Fields(rest)...)
+		case "opaque":
+			// opaque F...: calls of F are treated as unknown calls in this function (its contract is neither required
+			// nor assumed, its effects are havoc) - a sound weakening, used where F's precondition is not provable here
+			cur.Opaque = append(cur.Opaque, strings.Fields(rest)...)
 			cur.NoInline = append(cur.NoInline, strings.Fields(rest)...)
 		case "modifies":
 			cur.HasMod = true
